@@ -2,6 +2,7 @@
 From Coq Require Import List ZArith NArith String Bool.
 From SCC Require Import Model.LinCheck.
 From SCC Require Import Sem.LabelText.
+From SCC Require Import Sem.WfGuard.
 From SCC Require Import Base.Sexp Lang.AxSyn Sem.AxSem Sem.AxTrace Sem.X86Sem Sem.X86Wf Sem.LabelGuard Sem.HeapCheck Sem.X86Heap Model.Backend Model.X86 Model.X86Io Model.RunBase.
 Import ListNotations.
 Open Scope string_scope.
@@ -249,28 +250,45 @@ Definition guard_tag (p : sexp) : string :=
                ++ (if calls_guard pp then "" else " open-calls")
   | None => ""
   end.
+(* is the program inside ALL hypotheses of the theorem Props/C14.v C14_x86_compile_asm_wf (Sem/WfGuard.v)?  Tag
+   `thm` / `out:<first hypothesis that fails>`; `small-thm` when also inside C14_x86_compile_code_small.  A program
+   inside the hypotheses whose REAL output fails asm_wf (resp. the size bound) contradicts the theorem: the model
+   and the code disagree - VIOL class=asm-wf-theorem-contradicted. *)
+Definition thm_tag (pp : option prog) : string :=
+  match pp with
+  | Some pp => (if wf_guard_x86 pp then " thm" else " out:" ++ wf_guard_failed pp)
+               ++ (if lin_check_prog pp && size_guard pp then " small-thm" else "")
+  | None => ""
+  end.
+Definition code_small_b (cs : list xcode) : bool :=
+  Z.ltb (fold_right (fun c a => isize c + a)%Z 0%Z cs) (4611686018427387904 - CODE_BASE)%Z.
 Definition wf_x86_case (i r : sexp) : verdict :=
   match i, r with
   | L [Q _; p; lc; _], L [cs; _] =>
       match g_xcodes cs with
       | Some cs =>
+          let pp := g_prog p in
+          let inside := match pp with Some q => wf_guard_x86 q | None => false end in
+          let inside_small := match pp with Some q => lin_check_prog q && size_guard q | None => false end in
           match bad_label (defined_labels cs ++ flat_map referenced cs) with
           | Some l => VViol ("class=asm-ill-formed label is not an identifier: " ++ l)
           | None =>
           match asm_wf cs with
           | Some why =>
+              if inside then VViol ("class=asm-wf-theorem-contradicted " ++ why) else
               (* known finding: <Type>_<k>[_<Xtor>] is ambiguous when type AND xtor names carry `_<digits>` *)
-              match first_dup (defined_labels cs), g_prog p with
+              match first_dup (defined_labels cs), pp with
               | Some l, Some pp => if name_digits pp then VViol ("class=label-collision-name-digits " ++ why)
                                    else VViol ("class=asm-ill-formed " ++ why)
               | _, _ => VViol ("class=asm-ill-formed " ++ why)
               end
           | None =>
+              if inside_small && negb (code_small_b cs) then VViol "class=asm-wf-theorem-contradicted code not small" else
               let nlab := List.length (defined_labels cs) in
               let big := existsb (fun c => match c with MOVI _ i => negb (fits32 i) | _ => false end) cs in
               VOk ("nt labels" ++ n_to_string (N.log2 (N.of_nat nlab + 1)) ++ (if big then " imm64" else "")
                    ++ (if existsb (fun c => match c with JMPLN _ => true | _ => false end) cs then " table" else "")
-                   ++ guard_tag p)
+                   ++ guard_tag p ++ thm_tag pp)
           end
           end
       | None => VBad "rust output unreadable"
